@@ -141,6 +141,8 @@ func genErr(arbitrary bool) *rapid.Generator[errSpec] {
 
 const maxCount = 1_000_000_000_000 // 10^12
 
+const astronomicCount = 1 << 62
+
 func genCount() *rapid.Generator[uint64] {
 	return rapid.OneOf(
 		rapid.Just(uint64(0)),
@@ -148,6 +150,10 @@ func genCount() *rapid.Generator[uint64] {
 		rapid.Uint64Range(0, 1000),
 		rapid.Uint64Range(0, maxCount),
 		rapid.SampledFrom([]uint64{1, 2, 7, 99, 100, 999, 1000, 99999, 1_000_000, 1_000_000_000, maxCount - 1, maxCount}),
+		// the property quantifies over every combination of counts: also far beyond any real run
+		// (three of them still sum below 2^64)
+		rapid.Uint64Range(0, astronomicCount),
+		rapid.SampledFrom([]uint64{184467440737095516, 184467440737095517, 200_000_000_000_000_000, 1 << 53, 1<<53 + 1, 1 << 62, astronomicCount}),
 	)
 }
 
@@ -156,8 +162,12 @@ const hundredHours = 100 * time.Hour
 func genDuration() *rapid.Generator[time.Duration] {
 	return rapid.OneOf(
 		rapid.Just(time.Duration(0)),
-		rapid.Custom(func(t *rapid.T) time.Duration { return time.Duration(rapid.Int64Range(0, int64(time.Second)).Draw(t, "subsecond")) }),
-		rapid.Custom(func(t *rapid.T) time.Duration { return time.Duration(rapid.Int64Range(0, int64(hundredHours)).Draw(t, "dur")) }),
+		rapid.Custom(func(t *rapid.T) time.Duration {
+			return time.Duration(rapid.Int64Range(0, int64(time.Second)).Draw(t, "subsecond"))
+		}),
+		rapid.Custom(func(t *rapid.T) time.Duration {
+			return time.Duration(rapid.Int64Range(0, int64(hundredHours)).Draw(t, "dur"))
+		}),
 		rapid.Custom(func(t *rapid.T) time.Duration {
 			return time.Duration(rapid.Int64Range(1, 359_999).Draw(t, "secs"))*time.Second +
 				time.Duration(rapid.SampledFrom([]int64{0, 0, 1, 250_000_000, 499_999_999, 500_000_000, 999_999_999}).Draw(t, "frac"))
@@ -231,8 +241,8 @@ type captured struct {
 type capHandler struct{ c *captured }
 
 func (h capHandler) Enabled(context.Context, slog.Level) bool { return true }
-func (h capHandler) WithAttrs([]slog.Attr) slog.Handler      { return h }
-func (h capHandler) WithGroup(string) slog.Handler           { return h }
+func (h capHandler) WithAttrs([]slog.Attr) slog.Handler       { return h }
+func (h capHandler) WithGroup(string) slog.Handler            { return h }
 func (h capHandler) Handle(_ context.Context, r slog.Record) error {
 	h.c.records++
 	h.c.level = r.Level
@@ -1164,7 +1174,7 @@ func TestRegress(t *testing.T) {
 		}
 	}
 	for _, c := range []pipeCase{
-		{Phase1: [3]uint64{0, 0, 5}},                                  // F8 through the real pipeline
+		{Phase1: [3]uint64{0, 0, 5}},                                   // F8 through the real pipeline
 		{Phase1: [3]uint64{0, 0, 1}, IgnoreDropped: true, Clock: true}, // F8, passed verdict
 		{},
 		{Phase1: [3]uint64{3, 2, 1}, Phase2: [3]uint64{1, 0, 4}, MaxRate: 50, Errs: []errSpec{{Kind: "plain", Text: "a\nb"}, {Kind: "plain", Text: "100%"}}, Path: "{{.x}}"},
